@@ -141,6 +141,13 @@ def make_scratch(kind, grid, extra, seed=0):
     if kind.endswith("dirty"):
         rng = np.random.default_rng(seed)
         sc = rng.normal(size=shape) + 1j * rng.normal(size=shape)
+        # "any prior content": uninitialised memory or the leftovers of a propagation that hit NaN samples hold
+        # NaN / infinite values too (one buffer in three: a few such samples, or all of them)
+        fill = seed % 6
+        if fill == 0:
+            sc[rng.uniform(size=shape) < 0.2] = np.nan
+        elif fill == 1:
+            sc[...] = complex(np.inf, -np.inf) if seed % 4 < 2 else np.nan
     else:
         sc = np.zeros(shape, dtype=complex)
     return sc, sc.copy()
@@ -180,7 +187,7 @@ def run_fft(s, w, model, scratch_kind, oracle, wl=None, scratch=None, before=Non
     if scratch is not None and before is not None and scratch.shape != grid:
         outside = np.ones(scratch.shape, dtype=bool)
         outside[:grid[0], :grid[1]] = False
-        if not np.array_equal(scratch[outside], before[outside]):
+        if not np.array_equal(scratch[outside], before[outside], equal_nan=True):
             raise Violation(oracle + ".scratch_outside", "scratch buffer modified outside the advertised region")
     return out, got, ref, tol
 
@@ -308,6 +315,8 @@ def scratch_reuse(case, ctx):
     shape = (adv[0] + case["extra"][0], adv[1] + case["extra"][1])
     rng = np.random.default_rng(Nmax)
     scratch = (rng.normal(size=shape) + 1j * rng.normal(size=shape)) if case["dirty"] else np.zeros(shape, dtype=complex)
+    if case["dirty"] and (shape[0] + shape[1]) % 3 == 0:
+        scratch[rng.uniform(size=shape) < 0.3] = np.nan          # prior content that is not even finite
     ctx.tag(f"steps:{len(steps)}", "dirty" if case["dirty"] else "clean", "exact" if shape == adv else "larger",
             "grids_differ" if len({st_["N"] for st_ in steps}) > 1 else None)
     ctx.nontrivial_if(len({st_["N"] for st_ in steps}) > 1)
